@@ -66,6 +66,18 @@ def run(ctx):
                       ("@noapprox (0 °C to kelvin) to fraction", "5463/20 kelvin"), ("@noapprox (100 °C to °F) to fraction", "212 °F"), ("@noapprox (-40 °F to °C) to fraction", "-40 °C"),
                       ("@noapprox (9 J/°F to J/kelvin) to fraction", "81/5 J / kelvin"), ("@noapprox (1 inch to cm) to fraction", "127/50 cm"), ("@noapprox (1 lb to kg) to fraction", "45359237/100000000 kg")]:
         exprs.append(e); meta.append(("fixed", want))
+    # temperatures to the first power INSIDE compound units convert by scale only (no offset), whatever the other factor is
+    tsc = {"°C": F(1), "celsius": F(1), "kelvin": F(1), "K": F(1), "°F": F(5, 9), "fahrenheit": F(5, 9)}
+    others = [u for u in ("min", "W", "m", "s", "hour", "kg", "mile", "J", "bar") if u in ok]
+    for _ in range(150 if quick else 4000):
+        t1, t2 = r.choice(list(tsc)), r.choice(list(tsc))
+        u = r.choice(others); x = r.choice([F(1), F(5), F(10), F(-3), F(7, 2), F(r.randint(1, 999), r.randint(1, 99))])
+        shape = r.choice(["{t}/{u}", "{t} {u}", "{t}/{u}^2", "{t} {u}/s"])
+        a_, b_ = shape.format(t=t1, u=u), shape.format(t=t2, u=u)
+        exprs.append(f"@noapprox (({unitcases.q(x)}) {a_} to {b_}) to fraction"); meta.append(("tempcompound", x * tsc[t1] / tsc[t2]))
+        if r.random() < 0.3:
+            y = r.choice([F(2), F(5), F(1, 3)])
+            exprs.append(f"@noapprox ((({unitcases.q(x)}) {a_} + ({unitcases.q(y)}) {b_}) to {a_}) to fraction"); meta.append(("tempcompound", x + y * tsc[t2] / tsc[t1]))
     outs = ctx.run_lines_robust(h, ["eval"], exprs, env={"HARNESS_LINE_TIMEOUT_S": "20"})
     # model lines
     mlines, midx = [], []
@@ -75,9 +87,15 @@ def run(ctx):
             sa, _, da = ok[a]; sb, _, db = ok[b]
             mlines.append(f"convert {unitcases.q(x)} {unitcases.q(sa)} {unitcases.dims_str(da, ids)} {unitcases.q(sb)} {unitcases.dims_str(db, ids)}"); midx.append(i)
     mouts = dict(zip(midx, ctx.run_lines(core.DRIVER, ["units"], mlines, timeout=900)[1]))
-    dist = {"direct": 0, "inverse": 0, "via": 0, "fixed": 0, "skipped_approx": 0}
+    dist = {"direct": 0, "inverse": 0, "via": 0, "fixed": 0, "tempcompound": 0, "skipped_approx": 0}
     for i, (m, o) in enumerate(zip(meta, outs)):
         dist[m[0]] += 1
+        if m[0] == "tempcompound":
+            got = unitcases.lead_number(o)
+            if got != m[1]:
+                ctx.spec_failures.append({"stream": "conversions", "input": exprs[i], "impl": o[:120], "model": unitcases.q(m[1]),
+                                          "spec": "temperatures convert by scale only inside sums and compound units (no offset, and the other factors of the unit are kept)"})
+            continue
         if m[0] == "fixed":
             if o != "ok " + m[1]:
                 ctx.spec_failures.append({"stream": "conversions", "input": exprs[i], "impl": o[:120], "model": m[1], "spec": "temperatures: affine for plain `to`, scale-only in sums/compounds; standard-defined factors"})
